@@ -540,6 +540,27 @@ func (fc *FCtx) specCall(n *SNode, env *Env) Val {
 	case "enc":
 		evalArgs()
 		return Val{T: app(fc.encFn(args[0].S), args[0].T), S: fc.U.BzSort()}
+	case "ext":
+		if n.Args[1].Op != "str" {
+			oos("spec: ext() needs a function alias string")
+		}
+		al, ok := extAliases[n.Args[1].Name]
+		if !ok {
+			oos("spec: unknown ext alias %q", n.Args[1].Name)
+		}
+		var as []Val
+		var sorts []*Sort
+		var ts []string
+		for _, a := range n.Args[2:] {
+			v := fc.specEval(a, env)
+			as = append(as, v)
+			sorts = append(sorts, v.S)
+			ts = append(ts, v.T)
+		}
+		rs, rt := fc.resolveSpecType(al.ret, env.pkg)
+		fname := extFnName(al.full, sorts, 0)
+		fc.U.Fun(fname, sorts, rs)
+		return Val{T: app(fname, ts...), S: rs, GoT: rt}
 	case "unboxStr":
 		evalArgs()
 		return Val{T: app(fc.unboxFn(SStr, args[0].S), args[0].T), S: SStr}
